@@ -1419,7 +1419,7 @@ Qed.
 
 Lemma collect_v21 c x raw : provider c SCollect = Some ExportMixinAppCertBlockManifest ->
   56 <= length (m_app x) -> collect c x = Ok raw ->
-  exists cb app' cbb mf0 mf, m_cert x = Some cb /\
+  exists cb app' cbb mf0 mf, m_cert x = Some cb /\ digest_guard c x cb = Ok tt /\
     update_ivt c x (m_app x) (total_len c x) (app_len c x) = Ok app' /\ cert_export cb 1 = Ok cbb /\
     manifest_export c x 0 = Ok mf0 /\
     (if has c MixinManifestCrc
@@ -1429,6 +1429,7 @@ Proof.
   intros PC L E. unfold collect in E. rewrite PC in E.
   destruct (m_app x) as [|b t] eqn:Ea; [simpl in L; lia|]. rewrite <- Ea in *.
   destruct (m_cert x) as [cb|]; [|discriminate E].
+  destruct (digest_guard c x cb) as [[]|] eqn:G; cbn [bind] in E; [|discriminate].
   destruct (update_ivt c x (m_app x) (total_len c x) (app_len c x)) as [app'|] eqn:U; cbn [bind] in E; [|discriminate].
   destruct (cert_export cb 1) as [cbb|] eqn:CE; cbn [bind] in E; [|discriminate].
   destruct (manifest_export c x 0) as [mf0|] eqn:M0; cbn [bind] in E; [|discriminate].
@@ -1436,6 +1437,31 @@ Proof.
   - destruct (manifest_export c x (Z.of_N (mbi_crc32_mpeg (drop_last 4 (app' ++ cbb ++ mf0))))) as [mf|] eqn:M1; cbn [bind] in E; [|discriminate].
     injection E as <-. exists cb, app', cbb, mf0, mf. auto 10.
   - injection E as <-. exists cb, app', cbb, mf0, mf0. auto 10.
+Qed.
+
+(* the digest check of collect_data: algorithm of a digest manifest = hash type of the signature size *)
+Definition sig_alg (cb : cert) : Z :=
+  let sg := Z.of_nat (cert_sig cb) in if (sg =? 64)%Z then 1%Z else if (sg =? 96)%Z then 2%Z else if (sg =? 132)%Z then 3%Z else 0%Z.
+Lemma hash_type_of_sig_alg cb : hash_type_of_sig (cert_sig cb) = if (sig_alg cb =? 0)%Z then None else Some (sig_alg cb).
+Proof.
+  unfold hash_type_of_sig, sig_alg. cbv zeta.
+  destruct (Nat.eqb_spec (cert_sig cb) 64) as [->|N1]; [reflexivity|].
+  replace (Z.of_nat (cert_sig cb) =? 64)%Z with false by (symmetry; apply Z.eqb_neq; lia).
+  destruct (Nat.eqb_spec (cert_sig cb) 96) as [->|N2]; [reflexivity|].
+  replace (Z.of_nat (cert_sig cb) =? 96)%Z with false by (symmetry; apply Z.eqb_neq; lia).
+  destruct (Nat.eqb_spec (cert_sig cb) 132) as [->|N3]; [reflexivity|].
+  replace (Z.of_nat (cert_sig cb) =? 132)%Z with false by (symmetry; apply Z.eqb_neq; lia). reflexivity.
+Qed.
+Lemma digest_guard_unfold c x cb : has c MixinManifestDigest = true -> (m_digest x <> 0)%Z ->
+  digest_guard c x cb = if ((sig_alg cb =? 0) || negb (sig_alg cb =? m_digest x))%Z then Err E_REJECT else Ok tt.
+Proof. intros HD D0. unfold digest_guard. rewrite HD. apply Z.eqb_neq in D0. rewrite D0. reflexivity. Qed.
+Lemma digest_guard_ok c x cb : has c MixinManifestDigest = true -> digest_guard c x cb = Ok tt ->
+  (m_digest x = 0 \/ hash_type_of_sig (cert_sig cb) = Some (m_digest x))%Z.
+Proof.
+  intros HD G. destruct (Z.eq_dec (m_digest x) 0) as [D0|D0]; [now left|]. right.
+  rewrite (digest_guard_unfold c x cb HD D0) in G. rewrite hash_type_of_sig_alg.
+  destruct (Z.eqb_spec (sig_alg cb) 0); cbn [orb] in G; [discriminate|].
+  destruct (Z.eqb_spec (sig_alg cb) (m_digest x)) as [->|]; cbn [negb] in G; [reflexivity|discriminate].
 Qed.
 
 Lemma tz_custom_flags' c x (a : list N) : (0 <= c_type c < 64)%Z -> wf_input x -> has_tz c = true ->
@@ -1455,6 +1481,20 @@ Lemma real_hash_by alg d : (alg = 1 \/ alg = 2 \/ alg = 3)%Z -> real_hash alg d 
 Proof. intros [-> | [-> | ->]]; reflexivity. Qed.
 
 
+Lemma rom_cb_v21_body_alg rkth cb size info : rom_cb_v21_body rkth cb size = Some info -> (c2_alg info = 2 \/ c2_alg info = 3)%Z.
+Proof.
+  unfold rom_cb_v21_body. intros H. cbv zeta in H.
+  set (typ := Z.land (rd32 12 cb) 15) in *.
+  match type of H with context [Z.land (rd32 ?e cb) 15] => set (ityp := Z.land (rd32 e cb) 15) in * end.
+  destruct (negb ((typ =? 1) || (typ =? 2))%Z) eqn:T; [discriminate|].
+  assert (TT : (typ = 1 \/ typ = 2)%Z).
+  { apply negb_false_iff, orb_true_iff in T as [T|T]; apply Z.eqb_eq in T; auto. }
+  clearbody typ ityp.
+  repeat match type of H with
+         | (if ?b then _ else _) = Some _ => destruct b eqn:?; try discriminate H
+         end; injection H as <-; cbn [c2_alg]; lia.
+Qed.
+
 Lemma andb_assoc_dup (a d : bool) : (a && negb d && negb d) = (a && negb d).
 Proof. destruct a, d; reflexivity. Qed.
 Definition v21_digest (c : mbi_class) (x : mbi) (msg : list N) : list N :=
@@ -1464,13 +1504,12 @@ Theorem v21_accept_l sign c x img cfg keys body sg info :
   k_v21 c = true -> wf_input x -> m_cert x = Some (CertV21 body sg) -> cb_v21_ok (rk_rkth keys) body info ->
   r_cb cfg = CbV21 -> r_hmac cfg = false -> r_mcrc cfg = has c MixinManifestCrc -> In (c_type c) (r_types cfg) ->
   tz_ok (r_tzsize cfg) x -> (0 <= m_digest x <= 3)%Z ->
-  (has c MixinManifestDigest = true -> m_digest x = 0 \/ m_digest x = c2_alg info - 1)%Z ->
   sg = 2 * klen_of info -> (forall m, length (sign m) = sg) ->
   export_mbi (real_crypto sign) c x = Ok img ->
   exists msg, img = msg ++ sign msg ++ v21_digest c x msg /\
     rom_mbi cfg keys img = Some {| ro_plain := msg; ro_msg := msg; ro_obl := v21_obl info msg (sign msg) |}.
 Proof.
-  intros K WI MC CB RCB RH RMC TY TZ DG DM SGE SL E. pose proof WI as (_ & _ & HT).
+  intros K WI MC CB RCB RH RMC TY TZ DG SGE SL E. pose proof WI as (_ & _ & HT).
   unfold k_v21 in K. apply andb_true_iff in K as [K CT]. do 16 (apply andb_true_iff in K as [K ?]).
   rename H into PU, H0 into PF, H1 into PS, H2 into PP, H3 into PE, H4 into PC, H5 into NHM, H6 into NH, H7 into NKS,
     H8 into NTM, H9 into NT, H10 into XM, H11 into NC1, H12 into HC21, H13 into HA, H14 into ND. norm_bools.
@@ -1478,8 +1517,12 @@ Proof.
   { apply orb_true_iff in CT as [CT|CT]; [apply orb_true_iff in CT as [CT|CT]|]; apply Z.eqb_eq in CT; auto. }
   destruct (export_inv _ c x img E) as (_ & V & raw & enc & enc2 & sgn & fin & E1 & E2 & E3 & E4 & E5 & ->).
   assert (L : 56 <= length (m_app x)) by (apply (validate_app_len c x V); assumption).
-  destruct (collect_v21 c x raw PC L E1) as (cb & app' & cbb & mf0 & mf & MC' & U & CE & M0 & M1 & ->).
+  destruct (collect_v21 c x raw PC L E1) as (cb & app' & cbb & mf0 & mf & MC' & G & U & CE & M0 & M1 & ->).
   rewrite MC in MC'. injection MC' as <-. cbn [cert_export] in CE. injection CE as <-.
+  assert (DM : has c MixinManifestDigest = true -> (m_digest x = 0 \/ m_digest x = c2_alg info - 1)%Z).
+  { intros HD. destruct (digest_guard_ok c x _ HD G) as [D0|DH]; [now left|]. right. cbn [cert_sig] in DH.
+    destruct CB as (_ & _ & _ & BD). destruct (rom_cb_v21_body_alg _ _ _ _ BD) as [A|A];
+      unfold klen_of in SGE; rewrite A in SGE; cbn in SGE; subst sg; cbn in DH; injection DH as <-; lia. }
   rewrite (encrypt_none _ c x _ PE) in E2. injection E2 as <-.
   rewrite (post_encrypt_none c x _ PP) in E3. injection E3 as <-.
   unfold MbiModel.sign in E4. rewrite PS in E4.
@@ -1653,49 +1696,26 @@ Proof.
   split; vm_compute; reflexivity.
 Qed.
 (* ------------------------------------------------------------------ the manifest digest algorithm is checked at export *)
-Lemma export_c02_inv k c x img : export_c02 k c x = Ok img -> digest_guard c x = Ok tt /\ export_mbi k c x = Ok img.
-Proof.
-  unfold export_c02. destruct (negb (supported c)); [discriminate|].
-  destruct (validate c x) as [[]|]; cbn [bind]; [|discriminate].
-  destruct (digest_guard c x) as [[]|]; cbn [bind]; [|discriminate]. auto.
-Qed.
-Lemma digest_guard_ok c x cb : provider c SCollect = Some ExportMixinAppCertBlockManifest -> has c MixinManifestDigest = true ->
-  m_cert x = Some cb -> digest_guard c x = Ok tt -> (m_digest x = 0 \/ hash_type_of_sig (cert_sig cb) = Some (m_digest x))%Z.
-Proof.
-  intros PC HD MC G. unfold digest_guard in G. rewrite PC, HD, MC in G. cbn [andb] in G.
-  destruct (m_digest x =? 0)%Z eqn:E0; [left; now apply Z.eqb_eq|]. right. cbn [negb] in G.
-  destruct (hash_type_of_sig (cert_sig cb)) as [a|]; [|discriminate].
-  destruct (a =? m_digest x)%Z eqn:E; [|discriminate]. apply Z.eqb_eq in E. now subst.
-Qed.
 (* a digest algorithm other than the hash of the signing key is refused with an SPSDK error: nothing is exported *)
 Lemma digest_alg_refused_l k c x cb :
-  supported c = true -> validate c x = Ok tt -> provider c SCollect = Some ExportMixinAppCertBlockManifest ->
+  supported c = true -> validate c x = Ok tt -> has c MixinApp = true ->
+  provider c SCollect = Some ExportMixinAppCertBlockManifest ->
   has c MixinManifestDigest = true -> m_cert x = Some cb -> (m_digest x <> 0)%Z ->
   hash_type_of_sig (cert_sig cb) <> Some (m_digest x) -> export_c02 k c x = Err E_REJECT.
 Proof.
-  intros S V PC HD MC D0 HT. unfold export_c02. rewrite S, V. cbn [negb bind]. unfold digest_guard. rewrite PC, HD, MC.
-  apply Z.eqb_neq in D0. rewrite D0. cbn [andb negb].
-  destruct (hash_type_of_sig (cert_sig cb)) as [a|]; [|reflexivity].
-  destruct (a =? m_digest x)%Z eqn:E; [|reflexivity]. apply Z.eqb_eq in E. subst. congruence.
+  intros S V HA PC HD MC D0 HT. pose proof (validate_app_len c x V HA) as L.
+  unfold export_c02, export_mbi, export_image. rewrite S, V. cbn [negb bind]. unfold collect. rewrite PC, MC.
+  destruct (m_app x) as [|b t]; [simpl in L; lia|].
+  assert (G : digest_guard c x cb = Err E_REJECT).
+  { rewrite (digest_guard_unfold c x cb HD D0). rewrite hash_type_of_sig_alg in HT.
+    destruct (Z.eqb_spec (sig_alg cb) 0); cbn [orb]; [reflexivity|].
+    destruct (Z.eqb_spec (sig_alg cb) (m_digest x)) as [E|]; cbn [negb]; [rewrite E in HT; congruence|reflexivity]. }
+  rewrite G. reflexivity.
 Qed.
 Example digest_alg_refused_instance :
   export_c02 (real_crypto (demo_sign 64)) demo_c_v21 (demo_x21 2) = Err E_REJECT /\
   is_ok (export_c02 (real_crypto (demo_sign 64)) demo_c_v21 (demo_x21 1)) = true.
 Proof. split; vm_compute; reflexivity. Qed.
-
-Lemma rom_cb_v21_body_alg rkth cb size info : rom_cb_v21_body rkth cb size = Some info -> (c2_alg info = 2 \/ c2_alg info = 3)%Z.
-Proof.
-  unfold rom_cb_v21_body. intros H. cbv zeta in H.
-  set (typ := Z.land (rd32 12 cb) 15) in *.
-  match type of H with context [Z.land (rd32 ?e cb) 15] => set (ityp := Z.land (rd32 e cb) 15) in * end.
-  destruct (negb ((typ =? 1) || (typ =? 2))%Z) eqn:T; [discriminate|].
-  assert (TT : (typ = 1 \/ typ = 2)%Z).
-  { apply negb_false_iff, orb_true_iff in T as [T|T]; apply Z.eqb_eq in T; auto. }
-  clearbody typ ityp.
-  repeat match type of H with
-         | (if ?b then _ else _) = Some _ => destruct b eqn:?; try discriminate H
-         end; injection H as <-; cbn [c2_alg]; lia.
-Qed.
 
 Theorem v21_accept_c02_l sign c x img cfg keys body sg info :
   k_v21 c = true -> wf_input x -> m_cert x = Some (CertV21 body sg) -> cb_v21_ok (rk_rkth keys) body info ->
@@ -1705,14 +1725,4 @@ Theorem v21_accept_c02_l sign c x img cfg keys body sg info :
   export_c02 (real_crypto sign) c x = Ok img ->
   exists msg, img = msg ++ sign msg ++ v21_digest c x msg /\
     rom_mbi cfg keys img = Some {| ro_plain := msg; ro_msg := msg; ro_obl := v21_obl info msg (sign msg) |}.
-Proof.
-  intros K WI MC CB RCB RH RMC TY TZ DG SGE SL E.
-  destruct (export_c02_inv _ c x img E) as (G & E').
-  assert (DM : has c MixinManifestDigest = true -> (m_digest x = 0 \/ m_digest x = c2_alg info - 1)%Z).
-  { intros HD. pose proof K as K0. unfold k_v21 in K0. apply andb_true_iff in K0 as [K0 _]. do 16 (apply andb_true_iff in K0 as [K0 ?]).
-    match goal with H : prov_is c SCollect _ = true |- _ => apply prov_is_eq in H; rename H into PC end.
-    destruct (digest_guard_ok c x _ PC HD MC G) as [D0|DH]; [now left|]. right. cbn [cert_sig] in DH.
-    destruct CB as (_ & _ & _ & BD). destruct (rom_cb_v21_body_alg _ _ _ _ BD) as [A|A];
-      unfold klen_of in SGE; rewrite A in SGE; cbn in SGE; subst sg; cbn in DH; injection DH as <-; lia. }
-  exact (v21_accept_l sign c x img cfg keys body sg info K WI MC CB RCB RH RMC TY TZ DG DM SGE SL E').
-Qed.
+Proof. exact (v21_accept_l sign c x img cfg keys body sg info). Qed.
